@@ -154,6 +154,24 @@ def _keyfn(tag, inp, exp, got):
     return 'C21|%s|compiled-stops-before@%s' % (cfg, kind(le[n]))
 
 
+_SLOT = {'tf.1': 'finally-body', 'teef.3': 'finally-body', 'te.1': 'handler', 'tex.1': 'handler', 'teef.1': 'handler',
+         'teef.2': 'try-else', 'te.0': 'try-body', 'tex.0': 'try-body', 'tf.0': 'try-body', 'teef.0': 'try-body',
+         'whe.1': 'loop-else', 'forxe.1': 'loop-else'}
+
+
+def _slot(path):
+    """Block category that encloses a site ('finally-body', 'handler', 'loop-body', 'case', ...): the key of an unjustified
+    rejection names WHERE the flagged reference sits, not which atom it is (one root cause flags reads, dels, ... alike)."""
+    parts = str(path).split('/')
+    if len(parts) < 2:
+        return parts[0]
+    inner = parts[-2]
+    if inner in _SLOT:
+        return _SLOT[inner]
+    form = inner.split('.')[0]
+    return {'loop': 'loop-body', 'match': 'case', 'with': 'with-body', 'try': 'try-body'}.get(_CAT.get(form), inner)
+
+
 def _split_rejected(ctx, fns, workdir):
     """Default configuration: one cython-only pass per packed module; every 'referenced before assignment'
     error is mapped back to (function, site).  Returns (accepted fns, {fn name: [(site, var)]}, other_errors)."""
@@ -237,7 +255,7 @@ def _check_rejections(ctx, fns, rejected):
             done = [e for e in log if e[0] in flagged]
             if done:
                 paths = _INFO.get(f.tag, {})
-                ctx.violation('C21|D|unjustified-rejection@%s' % str(paths.get(done[0][0], done[0][0])).rsplit('/', 1)[-1],
+                ctx.violation('C21|D|unjustified-rejection@%s' % _slot(paths.get(done[0][0], done[0][0])),
                               '%s rejected at compile time (site %r definitely unbound) but CPython completes that site '
                               'on input %s' % (f.tag, done[0][0], expr),
                               {'kind': 'reject', 'source': PRELUDE + f.src, 'fname': name, 'input': expr,
